@@ -9,5 +9,8 @@ for c in $(git log --reverse --format=%h "$BASE"..verif-"$N"); do
     fix:*) ;;
     *) echo "SKIP (not a fix: commit) $c $S"; continue;;
   esac
-  if git cherry-pick "$c" > /tmp/cp.log 2>&1; then echo "picked $c -> $(git rev-parse --short HEAD) $S"; else echo "CONFLICT $c $S"; tail -5 /tmp/cp.log; exit 1; fi
+  if git log --format=%s main | grep -qxF "$S"; then echo "SKIP (subject already on main) $c $S"; continue; fi
+  if git cherry-pick "$c" > /tmp/cp.log 2>&1; then echo "picked $c -> $(git rev-parse --short HEAD) $S";
+  elif [ -z "$(git status --porcelain | grep -v '^??')" ]; then git cherry-pick --skip > /dev/null 2>&1; echo "SKIP (empty after earlier fixes) $c $S";
+  else echo "CONFLICT $c $S"; tail -5 /tmp/cp.log; exit 1; fi
 done
